@@ -32,6 +32,8 @@ def gen(vh, d, name, n, seed, only=0):
 
 
 def describe(e, b):
+    if e["ev"] == "MigH":
+        return "history of the state graph: " + "; ".join("want=%s have=%s ddl=%d err=%s rows=%s" % (st["want"], st["have"], st["nddl"], st["err"][:80], st["rows"]) for st in e["steps"])
     out = "ok(setup,idempotent,additive,data,accept,index-shape)=%s v1=%s added=%s index_added_on=%r accept=%s" % (
         (b["setup"], b["idem"], b["add"], b["data"], b["accept"], b.get("shape", True)), [(f["col"], f["type"], f["tags"], f["idx"]) for f in e["v1"]],
         [(f["col"], f["type"], f["tags"], f["idx"]) for f in e["added"]], e["added_index_on"], e["accept"][:120])
@@ -40,29 +42,53 @@ def describe(e, b):
     return out
 
 
+def hist_rows(w, vh, case, name):
+    dd = w.sub(name)
+    lib.write_ndjson(os.path.join(dd, "h.ndjson"), [case["src"][1]])
+    lib.run([vh, "mig-hist", "-cases", os.path.join(dd, "h.ndjson"), "-out", os.path.join(dd, "o.ndjson")], timeout=600)
+    return lib.read_ndjson(os.path.join(dd, "o.ndjson"))
+
+
 def check(w, tier, t0):
     vh = lib.build_harness()
     sd = lib.seed()
     verdict = lib.Verdict(PROP)
     d = w.sub("mc")
-    r = lib.tlc(d, "MigrateMC", lib.cfg_of("Migrate"), timeout=3000)
+    r = lib.tlc(d, "MigrateMC", lib.cfg_of("Migrate"), timeout=3000, extra=["-dump", "states.dump"])
     if not r.ok:
         raise lib.Inconclusive("Migrate model run failed:\n" + (r.error or ""))
     states, trans = r.distinct, r.generated
+    # direction A: every migration history of the state graph (sequences of wanted element sets) on a real table
+    seen, hists = set(), []
+    for st in lib.parse_dump_states(os.path.join(d, "states.dump"), ["hist"]):
+        wants = [h["want"] for h in (st["hist"] or [])]
+        k = json.dumps(wants)
+        if wants and k not in seen:
+            seen.add(k)
+            hists.append({"wants": wants})
     n = 40 if tier == "quick" else 8000
     d = w.sub("run")
+    lib.write_ndjson(os.path.join(d, "hists.ndjson"), hists)
+    lib.run([vh, "mig-hist", "-cases", os.path.join(d, "hists.ndjson"), "-out", os.path.join(d, "hists.out.ndjson")], timeout=6000)
+    hevents = lib.read_ndjson(os.path.join(d, "hists.out.ndjson"))
+    for e in hevents:
+        e["_src"] = ["hist", hists[e["case"] - 1]]
     events = []
     with ThreadPoolExecutor(max_workers=8) as ex:
         for part in ex.map(lambda j: gen(vh, d, "m%d" % j, n, sd * 1000 + j), range(8)):
             events += part
-    v, st, tr = validate(w, "V", events)
+    allev = hevents + events
+    v, st, tr = validate(w, "V", allev)
     states += st
     trans += tr
     for b in v["bad"]:
-        e = events[b["i"] - 1]
+        e = allev[b["i"] - 1]
         verdict.bad({"src": e["_src"], "case": e["case"]}, None, describe(e, b))
 
     def reproduce(case):
+        if case["src"][0] == "hist":
+            vv, _, _ = validate(w, "R" + lib.case_hash(case), hist_rows(w, vh, case, "repro-" + lib.case_hash(case)))
+            return len(vv["bad"]) > 0
         rows = gen(vh, w.sub("repro-" + lib.case_hash(case)), "r", case["src"][0], case["src"][1], only=case["case"])
         vv, _, _ = validate(w, "R" + lib.case_hash(case), rows)
         return len(vv["bad"]) > 0
@@ -71,9 +97,9 @@ def check(w, tier, t0):
     nontrivial = {key(e) for e in events if any(f["tags"] or f["idx"] for f in e["v1"] + e["added"])}
     samples = [{"v1": e["v1"], "added": e["added"], "added_index_on": e["added_index_on"],
                 "steps": [{"step": s["step"], "ddl": [(x["kind"], x["object"]) for x in s["ddl"]]} for s in e["steps"]]} for e in (events[0], events[len(events) // 2])]
-    cov = {"states": states, "transitions": trans, "traces_validated_against_impl": len(events), "samples": samples,
-           "evaluations": len(events), "distinct_nontrivial": len(nontrivial),
-           "rule": "one evaluation = one history migrate(v1) -> insert 3 rows -> migrate(v1) -> migrate(v2) -> migrate(v2) -> create+read a v2 record on a generated model (1-4 fields of int/uint/string/bool/float/bytes/time/pointer/NullString kinds with size, default (string/int/bool/float/quoted/empty/null), not null, unique, index, uniqueIndex, composite index, check, type:, precision/scale, comment, renamed column, DeletedAt; v2 adds 1-2 fields and sometimes an index on an existing field); every statement seen by the recording driver is classified into DDL events; table dumps after every step; non-trivial = some tag or index",
+    cov = {"states": states, "transitions": trans, "traces_validated_against_impl": len(allev), "samples": samples,
+           "evaluations": len(allev), "histories_of_the_state_graph_replayed": len(hevents), "distinct_nontrivial": len(nontrivial),
+           "rule": "one evaluation = one history migrate(v1) -> insert 3 rows -> migrate(v1) -> migrate(v2) -> migrate(v2) -> create+read a v2 record on a generated model (1-4 fields of int/uint/string/bool/float/bytes/time/pointer/NullString kinds with size, default (string/int/bool/float/quoted/empty/null), not null, unique, index, uniqueIndex, composite index, check, type:, precision/scale, comment, renamed column, DeletedAt; v2 adds 1-2 fields and sometimes an index on an existing field); plus direction A: every history of <= 3 AutoMigrate calls of the TLC state graph over models wanting subsets of {column a, column b, index on a, check on a}, the schema elements read back after every call; every statement seen by the recording driver is classified into DDL events; table dumps after every step; non-trivial = some tag or index",
            "exhaustive": False}
     lib.write_evidence(PROP, tier, "model_checking", cov, time.time() - t0, len(verdict.violations),
                        ["column introspection and AlterColumn / constraint creation come from the external SQLite dialector",
@@ -85,7 +111,10 @@ def check(w, tier, t0):
 def replay(w, path):
     vh = lib.build_harness()
     case = json.load(open(path))
-    rows = gen(vh, w.sub("replay"), "r", case["src"][0], case["src"][1], only=case["case"])
+    if case["src"][0] == "hist":
+        rows = hist_rows(w, vh, case, "replay")
+    else:
+        rows = gen(vh, w.sub("replay"), "r", case["src"][0], case["src"][1], only=case["case"])
     v, _, _ = validate(w, "R", rows)
     if v["bad"]:
         print("VIOLATION property=%s replay=%s" % (PROP, path))
